@@ -60,6 +60,11 @@ func linksSexp(tag string, v any) hx.Sexp {
 	m, _ := v.(map[string]any)
 	var xs []hx.Sexp
 	for _, k := range sortedKeys(m) {
+		if k == extraLinkKey {
+			// the additional link of a custom resolver (custom_rel.go): not part of the model's
+			// observable, checked by additionalLinkOracle on the implementation's output
+			continue
+		}
 		s, ok := m[k].(string)
 		if !ok {
 			s = fmt.Sprintf("<non-string %v>", m[k])
@@ -264,6 +269,9 @@ func documentOracles(c *Case, r Real) []failure {
 			if s, _ := links["related"].(string); s != "/"+ty+"/"+id+"/"+name {
 				fs = append(fs, failure{"links-form", fmt.Sprintf("relationship %q of %s/%s has related link %q", name, ty, id, s)})
 			}
+			if f := additionalLinkOracle(&c.World, ty, name, links); f != nil {
+				fs = append(fs, *f)
+			}
 		}
 	}
 	objs := resourceObjects(d)
@@ -310,6 +318,9 @@ func documentOracles(c *Case, r Real) []failure {
 		}
 		if s, _ := links["related"].(string); s != "/"+comps[0]+"/"+comps[1]+"/"+comps[3] {
 			fs = append(fs, failure{"links-form", fmt.Sprintf("%s %s: related link %q", c.Req.Method, c.Req.Path, s)})
+		}
+		if f := additionalLinkOracle(&c.World, comps[0], comps[3], links); f != nil {
+			fs = append(fs, *f)
 		}
 	}
 	return fs
